@@ -30,23 +30,35 @@ def gen_recipe(rng, size=None):
     """Random building history: nodes with components (0-2 ports), sub-interfaces, a facility, a switch,
     services with connected interfaces, peerings, explicit links with 1..4 ends, reservation marks."""
     size = size or rng.choice([1, 2, 2, 3, 3, 4])
+    # naming style: "plain" = globally distinct names; "short" = names reused wherever the API allows (component names
+    # unique per node, sub-interface names per parent port); "prefix" = names that are prefixes of each other
+    # (nic1/nic10, n1/n1-nic1, net/net1, v1/v10): elements are looked up by derived names, so equal names and
+    # name prefixes are where a removal can hit a sibling
+    style = rng.choice(["plain", "short", "prefix", "prefix"])
+    short = style != "plain"
+    NN = ["n1", "n1-nic1", "n10", "n1-nic10"] if style == "prefix" else ["n%d" % k for k in range(4)]
+    CN = ["nic1", "nic10", "nic100"] if style == "prefix" else ["nic0", "nic1", "nic2"]
+    VN = ["v1", "v10", "v100"] if style == "prefix" else ["v100", "v101", "v102"]
+    SN = ["net", "net1", "net10"] if style == "prefix" else ["s0", "s1", "s2"]
     r = []
     ifs = []      # symbolic interface refs: ["n", node, comp, idx] / ["c", node, comp, idx, child] / ["f", fac, idx] / ["w", sw, idx]
     nodes = []
     for k in range(size):
-        nn = "n%d" % k
+        nn = NN[k]
         r.append(["node", nn, rng.choice(SITES)])
         nodes.append(nn)
         for c in range(rng.choice([0, 1, 1, 2, 2, 3])):
             kind = rng.choice(["shared", "smart6", "smart6", "smart5", "gpu", "nvme"])
-            cn = "%s-c%d" % (nn, c)
+            # half of the recipes reuse component / sub-interface names wherever the API allows it (component names are
+            # unique per node, sub-interface names per parent port): equal-named ports then meet in one service
+            cn = CN[c] if short else "%s-c%d" % (nn, c)
             r.append(["comp", nn, cn, kind])
             nports = {"shared": 1, "smart6": 2, "smart5": 2}.get(kind, 0)
             for p in range(nports):
                 ifs.append(["n", nn, cn, p])
                 if kind != "shared" and rng.random() < 0.35:
                     for ch in range(rng.choice([1, 1, 2, 3])):
-                        chn = "%s-p%d-ch%d" % (cn, p, ch)
+                        chn = VN[ch] if short else "%s-p%d-ch%d" % (cn, p, ch)
                         r.append(["child", nn, cn, p, chn, str(100 + ch)])
                         ifs.append(["c", nn, cn, p, chn])
     if rng.random() < 0.5:
@@ -63,7 +75,7 @@ def gen_recipe(rng, size=None):
     free = list(ifs)
     svcs = []
     for s in range(rng.choice([0, 1, 1, 2, 2, 3])):
-        sn = "s%d" % s
+        sn = SN[s]
         k = rng.choice([0, 1, 2, 2, 3])
         mine, free = free[:k], free[k:]
         r.append(["service", sn, mine])
@@ -146,6 +158,22 @@ def corner_recipes():
     out.append(base + [["service", "s0", [A, B]], ["mark", "comp", "n1", "n1-c0"], ["mark", "iface", B]])
     # a service next to an explicit link (disconnect must leave the far interface alone)
     out.append(base + [["service", "s0", [["n", "n0", "n0-c0", 1]]], ["link", "l0", [A, B]]])
+    # equal-named sub-interfaces on two ports of one node (service ports n0-v100 twice) and on another node, in one service
+    V = [["node", "n0", "RENC"], ["comp", "n0", "nic1", "smart6"], ["child", "n0", "nic1", 0, "v100", "100"],
+         ["child", "n0", "nic1", 1, "v100", "100"], ["node", "n1", "RENC"], ["comp", "n1", "nic1", "smart6"],
+         ["child", "n1", "nic1", 0, "v100", "100"]]
+    c1, c2, c3 = ["c", "n0", "nic1", 0, "v100"], ["c", "n0", "nic1", 1, "v100"], ["c", "n1", "nic1", 0, "v100"]
+    out.append(V + [["service", "s0", [c1, c2, ["n", "n1", "nic1", 1]]]])
+    out.append(V + [["service", "s0", [c1, c2, c3]], ["service", "s1", [["n", "n1", "nic1", 1]]], ["peer", "s0", "s1"]])
+    out.append(V + [["service", "s0", [c1]], ["service", "s1", [c2, c3]], ["peer", "s0", "s1"], ["mark", "node", "n0"]])
+    # names that are prefixes of each other: sibling components nic1 / nic10, nodes n1 / n1-nic1, services net / net1
+    PX = [["node", "n1", "RENC"], ["comp", "n1", "nic1", "smart6"], ["comp", "n1", "nic10", "shared"],
+          ["node", "n1-nic1", "RENC"], ["comp", "n1-nic1", "nic1", "smart6"], ["child", "n1", "nic1", 0, "v1", "100"],
+          ["child", "n1", "nic1", 0, "v10", "101"]]
+    out.append(PX + [["service", "net", [["n", "n1", "nic10", 0], ["n", "n1-nic1", "nic1", 0]]],
+                     ["service", "net1", [["n", "n1", "nic1", 1], ["c", "n1", "nic1", 0, "v10"]]]])
+    out.append(PX + [["service", "net1", [["n", "n1", "nic10", 0], ["c", "n1", "nic1", 0, "v1"], ["n", "n1-nic1", "nic1", 1]]],
+                     ["service", "net", [["c", "n1", "nic1", 0, "v10"]]], ["peer", "net", "net1"], ["mark", "comp", "n1", "nic1"]])
     # prune of a node whose sub-interface is connected
     out.append(base + [["child", "n0", "n0-c0", 0, "ch0", "100"], ["service", "s0", [["c", "n0", "n0-c0", 0, "ch0"], B]], ["mark", "node", "n0"]])
     return out
@@ -528,6 +556,8 @@ def roots_of(b, snap, op, recipe):
         return c[:1], bool(c)
     if k == "remove_link":
         c = by_name.get(("Link", op[1]), [])
+        if len(c) > 1:
+            raise KeyError("ambiguous link name")      # addressed by name: skipped (C07 owns name uniqueness)
         return c[:1], bool(c)
     if k == "remove_child":
         p = resolve_if(b, op[1])
